@@ -20,7 +20,10 @@ CONSTANTS
   OPS = {"clear", "clearw", "clone", "clonew", "collect", "downgrade", "drop", "dropw", "new", "put", "set", "setw", "unwrap", "upgrade", "upgradef"}
   AUTOF = TRUE
   AUTO0 = FALSE
-  SZ = 152
+  SZ = 160
+  CLEAN = FALSE
+  MaxActs = 0
+  BUG_CLEAN_REENTRANT = FALSE
 INVARIANT NoViolation
 INVARIANT StructInv
 VIEW View
